@@ -19,7 +19,7 @@ def validate_rtok(w, obs, label):
 def run_rtok(w, lines, label):
     sf, of = w.path("rtokscen-%s.ndjson" % label), w.path("rtokobs-%s.ndjson" % label)
     write_ndjson(sf, lines)
-    w.run_harness("rtok", sf, of, case_timeout=60)
+    w.run_harness("rtok", sf, of, case_timeout=240)
     obs = []
     for o in read_ndjson(of):
         if "out" not in o:      # crashed / hung / harness error
@@ -107,6 +107,10 @@ def check(w):
     rlines = []
     for k, sc in enumerate(scripts):
         rlines.append({"id": 500000 + k, "basis": sc["basis"], "blk": sc["blk"], "script": sc["script"], "recv": "client" if k % 2 == 0 else "daemon"})
+    # ... and a few of them with the basis blocks BEYOND 2 GiB (sparse file): offsets need more than 32 bits
+    hugeable = [sc for sc in scripts if sc["blk"] == 2 and len(sc["basis"]) == 5 and sc["remfirst"]] or [sc for sc in scripts if sc["blk"] == 2 and len(sc["basis"]) in (4, 5)]
+    for k, sc in enumerate(random.Random(seed).sample(hugeable, min(len(hugeable), 2 if quick else 8))):
+        rlines.append({"id": 900000 + k, "basis": sc["basis"], "blk": sc["blk"], "script": sc["script"], "recv": "client" if k % 2 == 0 else "daemon", "huge": True})
     robs, rrej = run_rtok(w, rlines, "rtok")
     if rrej:
         again = [ln for ln in rlines if ln["id"] in rrej]
@@ -115,7 +119,7 @@ def check(w):
         remfirst = {500000 + k for k, sc in enumerate(scripts) if sc["remfirst"]}
         for o in robs2:
             if o["id"] in rrej2:
-                v.violation({"kind": "receiver", "result": o["result"], "remainder_block_before_full_block": o["id"] in remfirst, "recv": o["recv"]},
+                v.violation({"kind": "receiver", "result": o["result"], "remainder_block_before_full_block": o["id"] in remfirst, "recv": o["recv"], "basis_beyond_2GiB": o["id"] >= 900000},
                             {"basis": o["basis"], "blk_symbols": o["blk"], "script": o["script"], "wrote_symbols": o["out"], "result": o["result"], "err": o["err"][:500],
                              "temps": o["temps"], "note": "a symbol is 700/blk bytes; the real generator cut the basis into 700-byte blocks"})
     # negative control for the receiver half: a wrong written file must be rejected
